@@ -681,4 +681,89 @@ def tdCat {α : Type} [Inhabited α] (d : Int) : List (TD α) → Except Err (TD
     | none => .error .type
     | some os => catLevel d bs names es os
 
+/-! ### torch.gather of a tensordict (_torch_func.py:_gather) -/
+
+/-- _torch_func.py:_gather_tensor — the index is unsqueezed at the end up to the rank of the entry and expanded to the entry's
+shape (with the index's size along `dim`): it is read at the leading coordinates -/
+def indexExpand (index : T Nat) (leafShape : Shape) (d : Nat) : T Nat :=
+  ⟨leafShape.set d (index.shape.getD d 0), fun c => index.get (c.take index.shape.length)⟩
+
+
+mutual
+/-- _torch_func.py:_gather (after the index-size fix), for an index of the batch rank (what the harness generates) -/
+def gatherNode {α : Type} (d : Int) (index : T Nat) (bs : Shape) (names : Names) (es : List (String × TD α)) : Except Err (TD α) :=
+  match index.shape with
+  | [] => .error .type                          -- `len(index)` of a 0-d tensor
+  | s0 :: _ =>
+    if s0 = 0 then .error .runtime              -- "Cannot use torch.gather with an empty index"
+    else
+      let dim : Int := if d < 0 then bs.length + d else d
+      if dim > (bs.length : Int) - 1 ∨ dim < 0 then .error .runtime
+      else if (List.range (min index.shape.length bs.length)).any (fun i => i ≠ dim.toNat ∧ index.shape.getD i 0 ≠ bs.getD i 0)
+        then .error .runtime
+      else
+        match gatherEntries dim.toNat index es with
+        | .error e => .error e
+        | .ok es' => .ok (.node index.shape (if index.shape.length = bs.length then normNames names else none) es')
+termination_by (sizeOf es, 1)
+
+def gatherEntries {α : Type} (dim : Nat) (index : T Nat) : List (String × TD α) → Except Err (List (String × TD α))
+  | [] => .ok []
+  | (k, e) :: rest =>
+    match gatherEntry dim index e with
+    | .error err => .error err
+    | .ok e' => match gatherEntries dim index rest with
+      | .error err => .error err
+      | .ok rest' => .ok ((k, e') :: rest')
+termination_by es => (sizeOf es, 0)
+
+/-- `_gather_tensor`: the index unsqueezed / expanded to the entry, then `torch.gather` (a nested tensordict: the same function again) -/
+def gatherEntry {α : Type} (dim : Nat) (index : T Nat) : TD α → Except Err (TD α)
+  | .leaf t =>
+    if index.shape.length > t.shape.length then .error .runtime
+    else match Torch.gather dim (indexExpand index t.shape dim) t with
+      | .error e => .error e
+      | .ok r => .ok (.leaf r)
+  | .node bs2 nm2 es2 =>
+    if index.shape.length > bs2.length then .error .runtime
+    else gatherNode dim (indexExpand index bs2 dim) bs2 nm2 es2
+termination_by e => (sizeOf e, 0)
+end
+
+
+/-! ### masked_select (_td.py:masked_select) -/
+
+mutual
+/-- _td.py:masked_select (after the names fix) for a mask over the leading `k ≤ n` batch dims: every entry is indexed by the mask;
+the result is a new TensorDict of batch `[count] ++ bs.drop k` named `[None] ++ names.drop k` -/
+def mselNode {α : Type} (mask : T Bool) (bs : Shape) (names : Names) (es : List (String × TD α)) : Except Err (TD α) :=
+  if mask.shape.length > bs.length then .error .assertion    -- (trailing singleton dims of the mask are squeezed: not modelled)
+  else if bs.take mask.shape.length ≠ mask.shape then .error .index   -- (after the fix) checked up front, also without tensor entries
+  else
+    match mselEntries mask es with
+    | .error e => .error e
+    | .ok es' =>
+      .ok (.node ((T.maskSel mask).length :: bs.drop mask.shape.length)
+            (normNames (names.map fun l => none :: l.drop mask.shape.length)) es')
+termination_by (sizeOf es, 1)
+
+def mselEntries {α : Type} (mask : T Bool) : List (String × TD α) → Except Err (List (String × TD α))
+  | [] => .ok []
+  | (k, e) :: rest =>
+    match mselEntry mask e with
+    | .error err => .error err
+    | .ok e' => match mselEntries mask rest with
+      | .error err => .error err
+      | .ok rest' => .ok ((k, e') :: rest')
+termination_by es => (sizeOf es, 0)
+
+/-- `value[mask]`: torch boolean indexing on a leaf (the mask must match the leading dims: IndexError otherwise), tensordict
+indexing on a nested tensordict (same rule, recursively) -/
+def mselEntry {α : Type} (mask : T Bool) : TD α → Except Err (TD α)
+  | .leaf t => if t.shape.take mask.shape.length ≠ mask.shape then .error .index else .ok (.leaf (T.maskedSelect mask t))
+  | .node bs2 nm2 es2 => if bs2.take mask.shape.length ≠ mask.shape then .error .index else mselNode mask bs2 nm2 es2
+termination_by e => (sizeOf e, 0)
+end
+
+
 end TdVerif.C02
